@@ -72,9 +72,10 @@ def variants(rng, src, limit=None):
         return join(f(s) if k == "word" and s.lower() in front.KEYWORDS else s for k, s in toks)
     out.append(("upper-case keywords", recase(str.upper)))
     out.append(("capitalised keywords", recase(str.capitalize)))
+    out.append(("inverted-capitalisation keywords", recase(lambda w: w[:1].lower() + w[1:].upper())))
     out.append(("mixed-case keywords", recase(lambda s: "".join(c.upper() if rng.random() < 0.5 else c.lower() for c in s))))
     if limit is not None and len(out) > limit:
-        keep = [o for o in out if o[0] in ("compact", "upper-case keywords", "capitalised keywords", "mixed-case keywords")]
+        keep = [o for o in out if o[0] in ("compact", "upper-case keywords", "capitalised keywords", "mixed-case keywords", "inverted-capitalisation keywords")]
         rest = [o for o in out if o not in keep]
         out = keep + rng.sample(rest, max(0, limit - len(keep)))
     return out
